@@ -7,3 +7,4 @@ import OapiVerif.Props.C05
 import OapiVerif.Props.C06
 import OapiVerif.Props.C03
 import OapiVerif.Props.C13
+import OapiVerif.Props.C01
